@@ -32,6 +32,9 @@ def c14(tier, rep):
     rep.extra["rule"] = ("every (parser position, unexpected line kind) pair through Parser.match_token; every document <= N over a menu of faulty lines in both error "
                          "modes; every sequence of 12/13 faulty lines (error limit, de-duplication); corpus + generated + noisy traces in both modes")
     _error_transitions(rep)
+    # "a tag line outside a doc string contains a tag with whitespace": every kind of blank counts (space, tab, ideographic space, ...)
+    from props import _tags
+    _tags(rep, 5 if tier == "quick" else 6, (64, 12288, 35, 120, 160), (32,), "blanks")
     E.menu(rep, M.ERRORS, 3 if tier == "quick" else 4, max_errs=4, invariants=["Inv_C14", "Inv_C04", "Inv_C14_Iff"], label="errors")
     E.menu(rep, M.ERRORS, 3, mode="stop", max_errs=1, invariants=["Inv_C14"], label="errors-stop")
     E.menu(rep, CAP_MENU, 12 if tier == "quick" else 13, max_errs=11, invariants=["Inv_C14", "Inv_C01"], label="error-limit")
